@@ -73,6 +73,22 @@ def run(run, tier):
                                       {'case': name, 'seed': s, 'plain': str(val)[:300], 'full': str(cols)[:300]})
             if len(samples) < 3 and name.startswith('fast_SIS/str'):
                 samples.append({'case': name, 'seed': s, 'output_prefix': str(val)[:200]})
+    # which loops can run in hash order: translate/hashiter2v.py regenerates coq/Gen/HashIter.v from the source, Props/HashIterTable.v
+    # states that no continuous-time simulator reaches a set-ordered loop (the formal content of "independent of the hash seed") and
+    # which entry points do.  The battery above (several PYTHONHASHSEED processes) is the failing-input search.
+    from . import hashiter_lib
+    hi = hashiter_lib.check_hashiter(run)
+    stats['hash_iter'] = {'translator_ok': hi['_translator_ok'], 'theorem_ok': hi['_theorem_ok'], 'entries_with_set_ordered_loops': hi.get('_set_entries')}
+    if not hi['_translator_ok']:
+        run.violation('C18/hashiter/translator', 'translate/hashiter2v.py refuses the current source: %s' % hi['_translator_msg'][-300:],
+                      {'broken': 'translate/hashiter2v.py -> coq/Gen/HashIter.v', 'log': hi['_translator_msg'][-2000:]}, no_input=True)
+    elif not hi['_theorem_ok']:
+        run.violation('C18/hashiter/table', 'Props/HashIterTable.v no longer checks (theorem %s): the set of loops that can run in hash order changed: %s' % (hi.get('_failed_theorem'), (hi.get('_log') or '')[-300:]),
+                      {'broken': 'coq/Props/HashIterTable.v: %s' % hi.get('_failed_theorem'), 'log': (hi.get('_log') or '')[-2000:]}, no_input=True)
+    if hi.get('_props'):
+        props['theorems'] = list(props['theorems']) + list(hi['_props'].get('theorems', []))
+        props['axioms'] = dict(props['axioms'], **hi['_props'].get('axioms', {}))
+        props['ok'] = props['ok'] and bool(hi['_props'].get('ok'))
     # static part of the sentinel: the reproducibility argument (Props/C18.v: same calls => same draws) assumes the module-level
     # functions of `random` / `numpy.random` are the ONLY entropy the library touches; scan the source for any other generator or clock
     hits = entropy_scan()
